@@ -34,12 +34,11 @@ func (r *intsRanger) Range() (index, value reflect.Value, end bool) {
 	r.val++
 	end = r.val == r.to
 
-	// The indirection in the ValueOf calls avoids an allocation versus
-	// using the concrete value of 'i' and 'val'. The downside is having
-	// to interpret 'r.i' as "the current value" after Range() returns,
-	// and so it needs to be initialized as -1.
-	index = reflect.ValueOf(&r.i).Elem()
-	value = reflect.ValueOf(&r.val).Elem()
+	// Hand out copies: values aliasing r.i and r.val would change under
+	// the feet of anyone who kept them (e.g. assigned them to an outer
+	// variable) when the next iteration advances the counters.
+	index = reflect.ValueOf(r.i)
+	value = reflect.ValueOf(r.val)
 	return
 }
 
